@@ -1,7 +1,7 @@
 # obligation groups for /repo/lib/date-core.c (incl. the calendar files it #includes)
 TU('date-core', 'lib/date-core.c', LIB_CFLAGS,
-   pre=['spec/greg.h', 'spec/iso.h', 'contracts/date-core.loops.h'],
-   post=['contracts/date-core.contracts.h', 'contracts/date-core.arith.h', 'contracts/date-core.more.h'],
+   pre=['vf/snprintf_stub.h', 'spec/greg.h', 'spec/iso.h', 'contracts/date-core.loops.h'],
+   post=['contracts/date-core.contracts.h', 'contracts/date-core.arith.h', 'contracts/date-core.more.h', 'contracts/date-core.strf.h'],
    native_link=['lib/strops.c', 'lib/token.c', 'lib/dt-locale.c', 'lib/dt-core.c', 'lib/time-core.c', 'lib/leaps.c', 'lib/tzraw.c', 'lib/dt-core-tz-glue.c'],
    # non-const static lookup tables read by functions verified in direct mode (dfcc havocs statics):
    # (file, identifier) -- the driver checks on every run that they are never written
